@@ -34,6 +34,11 @@ impl InputVariant {
         }
     }
 
+    /// Whether this is a tuple variant other than a newtype; `FromMeta` cannot represent those.
+    pub(crate) fn is_unsupported_tuple(&self) -> bool {
+        self.data.is_tuple() && !self.data.is_newtype()
+    }
+
     pub fn from_variant(v: &syn::Variant, parent: Option<&Core>) -> Result<Self> {
         let mut starter = (InputVariant {
             ident: v.ident.clone(),
